@@ -61,6 +61,107 @@ def strip_comments(src):
     src = re.sub(r"//[^\n]*", "", src)
     return src
 
+# Verification hooks in /repo are add-only code guarded by `#[cfg(salsa_verif)]`; with the guard
+# off nothing changes, so the translator must not see them.
+_VERIF_ON = re.compile(r"#\[\s*cfg\s*\(\s*salsa_verif\s*\)\s*\]")
+_VERIF_OFF = re.compile(r"#\[\s*cfg\s*\(\s*not\s*\(\s*salsa_verif\s*\)\s*\)\s*\]")
+_VERIF_MACRO = re.compile(r"\bcfg!\s*\(\s*salsa_verif\s*\)")
+_CHAR_LIT = re.compile(r"'(?:\\(?:x[0-9a-fA-F]{2}|u\{[0-9a-fA-F_]+\}|.)|[^\\'\n])'")
+_RAW_STR = re.compile(r"\bb?r(#*)\"")
+_ITEM_KW = ('fn', 'pub', 'mod', 'const', 'unsafe', 'impl', 'struct', 'enum', 'use', 'static', 'type',
+            'trait', 'extern', 'async', 'macro_rules')
+
+def _skip_literal(src, i):
+    """if a string / raw string / char literal / block comment starts at i, the index after it; else i"""
+    c = src[i]
+    if c == '"' or (c == 'b' and src[i:i + 2] == 'b"'):
+        j = i + (2 if c == 'b' else 1)
+        while j < len(src) and src[j] != '"':
+            j += 2 if src[j] == '\\' else 1
+        return j + 1
+    if c in 'rb':
+        m = _RAW_STR.match(src, i)
+        if m and (i == 0 or not (src[i - 1].isalnum() or src[i - 1] == '_')):
+            end = src.find('"' + m.group(1), m.end())
+            return len(src) if end < 0 else end + 1 + len(m.group(1))
+    if c == "'":
+        m = _CHAR_LIT.match(src, i)
+        return m.end() if m else i + 1          # else: a lifetime
+    if c == '/' and src[i:i + 2] == '/*':
+        end = src.find('*/', i + 2)
+        return len(src) if end < 0 else end + 2
+    return i
+
+def _guarded_end(src, i):
+    """src[i:] starts a construct guarded by `#[cfg(salsa_verif)]` (a statement, block, item, struct
+    field or match arm); returns the index just after it.  It ends at a `;` at bracket depth 0 or
+    at the `}` closing the first `{…}` opened at depth 0 (plus a directly following `;` / `,`, and
+    continuing through `else` chains); a `let` only at its `;`; a field `name: …` also at a `,` at
+    depth 0; and in any case before a closing bracket of the enclosing construct."""
+    n = len(src)
+    while i < n and src[i].isspace():
+        i += 1
+    head = re.match(r"[A-Za-z_][A-Za-z0-9_]*", src[i:])
+    word = head.group(0) if head else ''
+    is_let = word == 'let'
+    is_field = bool(head) and word not in _ITEM_KW and re.match(r"\s*:(?!:)", src[i + len(word):]) is not None
+    depth, opened_block, angle = 0, False, 0
+    j = i
+    while j < n:
+        k = _skip_literal(src, j)
+        if k != j:
+            j = k
+            continue
+        c = src[j]
+        if c in '([{':
+            if c == '{' and depth == 0:
+                opened_block = True
+            depth += 1
+        elif c in ')]}':
+            if depth == 0:
+                return j                      # end of the enclosing construct
+            depth -= 1
+            if c == '}' and depth == 0 and opened_block and not is_let:
+                k = j + 1
+                while k < n and src[k].isspace():
+                    k += 1
+                if re.match(r"else\b", src[k:]):
+                    j = k + 4
+                    opened_block = False
+                    continue
+                if k < n and src[k] in ';,':
+                    return k + 1
+                return j + 1
+        elif c == ';' and depth == 0:
+            return j + 1
+        elif is_field and c == '<' and j > 0 and (src[j - 1].isalnum() or src[j - 1] in '_:'):
+            angle += 1                        # generic arguments of the field's type (`Foo<A, B>`)
+        elif is_field and c == '>' and angle > 0 and src[j - 1] not in '-=':
+            angle -= 1
+        elif c == ',' and depth == 0 and angle == 0 and is_field:
+            return j + 1
+        j += 1
+    return n
+
+def strip_verif_hooks(src):
+    """remove everything guarded by `#[cfg(salsa_verif)]`, keep what is guarded by
+    `#[cfg(not(salsa_verif))]` (without the attribute), read `cfg!(salsa_verif)` as `false`"""
+    out, pos = [], 0
+    while True:
+        m = _VERIF_ON.search(src, pos)
+        if not m:
+            out.append(src[pos:])
+            break
+        out.append(src[pos:m.start()])
+        pos = _guarded_end(src, m.end())
+    res = "".join(out)
+    res = _VERIF_OFF.sub("", res)
+    res = _VERIF_MACRO.sub("false", res)
+    left = re.search(r"[^\n]*\bcfg\w*!?\s*[\[(][^\n]*\bsalsa_verif\b[^\n]*", res)
+    if left:
+        raise TranslateError("unsupported use of the salsa_verif guard: %r" % left.group(0).strip())
+    return res
+
 def match_brace(src, i):
     """src[i] == '{' ; returns index after the matching '}'"""
     depth = 0
@@ -912,4 +1013,4 @@ namespace SalsaVerif.Gen.%s
 
 def read(repo, rel):
     with open(os.path.join(repo, rel)) as f:
-        return strip_comments(f.read())
+        return strip_verif_hooks(strip_comments(f.read()))
